@@ -53,6 +53,10 @@ def _fail(ctx, key, case, what):
             and (key.endswith('misclassified') or key.endswith('mixed-class') or key.endswith('another-recipients-reply'))):
         key = 'c11:classification-not-by-reply-code'
         what += ' [the reply text carries an enhanced status code of the other class; the reply CODE decides]'
+    if (isinstance(inner, dict) and inner.get('codes')
+            and (key.endswith('misclassified') or key.endswith('mixed-class') or key.endswith('another-recipients-reply'))):
+        key = 'c11:classification-not-by-code-class'
+        what += ' [reply codes %r: only the class of the code (4xx / 5xx) decides]' % (inner['codes'],)
     k = 'oracle-fail:' + key
     if ctx.dist.get(k, 0) < 3:
         ctx.fail(key, case, what)
@@ -188,6 +192,8 @@ class FakeServer(object):
             lines = ['Hello'] + names
             return ''.join('250%s%s\r\n' % ('-' if j < len(lines) - 1 else ' ', l) for j, l in enumerate(lines)).encode()
         code = CODES.get((kind, o)) or {R2: '250', R3: '354', R4: '450', R5: '550', R500: '500'}[o]
+        if o in (R4, R5, R500) and (self.case.get('codes') or {}).get(self.cur_key):
+            code = str(self.case['codes'][self.cur_key])
         text = KNAMES[kind]
         ek = (self.case.get('esc') or {}).get(self.cur_key)
         if ek and code[0] in '45':
@@ -493,7 +499,8 @@ def model_input(case, conn_index=0):
     entries = []
     for k in sorted(script):
         kind, m, i = parse_skey(k)
-        entries.append([kind, m, i, script[k]])
+        code = (case.get('codes') or {}).get(k)
+        entries.append([kind, m, i, code if (code and script[k] in (R4, R5, R500)) else script[k]])
     return [1 if case['proto'] == 'lmtp' else 0,
             [int(bool(cfg.get(x))) for x in ('tls_immediately', 'tls_required', 'creds', 'reuse')],
             CONN[conn], [list(map(int, case['exts'][0])), list(map(int, case['exts'][1]))],
@@ -820,6 +827,34 @@ def gen_smtp_cases(quick):
                 for o in ALL_OUT:
                     if o != STALL:
                         yield 'reuse', with_script(b, {skey(K_IDLE, 0): o})
+            # every concrete reply code the RFCs use in each class (+ two arbitrary ones), at every stage
+            rng_codes = [421, 450, 451, 452, 454, 455, 500, 501, 502, 503, 504, 521, 530, 535, 550, 551, 552, 553, 554, 555, 556,
+                         400 + (17 * (pl + 2 * lmtp + 1)) % 100, 500 + (29 * (pl + 2 * lmtp + 1) + 7) % 100]
+            for code in rng_codes:
+                o = R500 if code == 500 else (R4 if code < 500 else R5)
+                for n in (1, 2):
+                    b = base_case(proto, pl, [n])
+                    stages = [(K_BANNER, 0, 0), (K_EHLO, 0, 0), (K_MAIL, 0, 0), (K_DATA, 0, 0)]
+                    stages += [(K_RCPT, 0, i) for i in range(n)]
+                    stages += [(K_EOD, 0, i) for i in range(n)] if lmtp else [(K_EOD, 0, 0)]
+                    for st in stages:
+                        c = with_script(b, {skey(*st): o}); c['codes'] = {skey(*st): code}
+                        yield 'codes', c
+                    if n == 2:
+                        for other in (450, 452, 550, 552):
+                            o2 = R4 if other < 500 else R5
+                            c = with_script(b, {skey(K_RCPT, 0, 0): o, skey(K_RCPT, 0, 1): o2})
+                            c['codes'] = {skey(K_RCPT, 0, 0): code, skey(K_RCPT, 0, 1): other}
+                            yield 'codes', c
+                b = base_case(proto, pl, [1], adv_auth=1, creds=True)
+                c = with_script(b, {skey(K_AUTH): o}); c['codes'] = {skey(K_AUTH): code}
+                yield 'codes', c
+                b = base_case(proto, pl, [1], adv_starttls=1, tls_required=True)
+                c = with_script(b, {skey(K_STARTTLS): o}); c['codes'] = {skey(K_STARTTLS): code}
+                yield 'codes', c
+                b = base_case(proto, pl, [1])
+                c = with_script(b, {skey(K_EHLO): R500, skey(K_HELO): o}); c['codes'] = {skey(K_HELO): code}
+                yield 'codes', c
             # reply texts that start with an enhanced status code: matching the code, or of the other class
             for ek in ('match', 'contra'):
                 for o in (R4, R5):
@@ -1033,6 +1068,11 @@ OUTPUTS = [b'', b'transient failure\n', b'5.1.1 no such user\n', b'5.1.1', b'5.1
            b'5.12.345 x', b'5..1 x', b'50.1.1 x', b'5.1.1\x1f', b'5.1.1\x1c',
            # text that looks like a format string: nothing may ever format the program's output
            b'%', b'%%', b'%s', b'%d', b'Quota 100% full\n', b'%(name)s', b'{0}', b'{}', b'{sender}', b'\\', b'5.2.2 disk 97% full {x} \\n\n']
+# several lines: only the beginning of the output decides
+OUTPUTS += [b'temporary failure\n5.1.1 no such user\n', b'wrapper: starting\n5.2.2 mailbox full\nbye\n',
+            b'4.2.2 mailbox full\n5.0.0 giving up\n', b'\n5.1.1 after an empty line\n', b' \n5.1.1 x\n',
+            b'5.1.1 no such user\n4.2.2 later line\n', b'5.1.1 no such user\ntemporary\n5.0.0 x\n',
+            b'plain\r\n5.1.1 after crlf\r\n', b'x\n5.1.1', b'x\n5.1.1 \n']
 FORMAT_LIKE = (b'%', b'{', b'\\')
 STATUSES = [0, 1, 75, 127, -9]
 
@@ -1074,7 +1114,7 @@ def oracle_pipe(ctx, case, res):
             else:
                 want = 'trans' if p[1] == 75 else 'perm'
             if f != want:
-                key, what = 'c11:pipe-misclassified', 'recipient %d: status %d output %r reported %s, expected %s' % (i, p[1], p[2] or p[3], f, want)
+                key, what = ('c11:pipe-permanent-not-from-beginning-of-output' if (kind == 'pipe' and b'\n' in (p[2].rstrip() or p[3].rstrip())) else 'c11:pipe-misclassified'), 'recipient %d: status %d output %r reported %s, expected %s' % (i, p[1], p[2] or p[3], f, want)
         if key:
             _fail(ctx, key, dict(kind='pipe', case=case), what)
             return
@@ -1201,6 +1241,8 @@ HTTP_HEADERS = [None, '', 'asdf', '250; message="2.0.0 Ok"', '450; message="4.2.
                 '550; message="5.1.1 no" command="RCPT"', '450; message="4.0.0 x" command="DATA"', ' 554 ; message="5.0.0 x"',
                 '550; message="4.2.1 mailbox busy"', '450; message="5.7.1 try later"', '451; message="4.7.1 greylisted"',
                 '550; message="4.2.1 busy" command="RCPT"',
+                '552; message="too many"', '452; message="too many"', '421; message="closing"', '521; message="no mail"',
+                '554; message="5.7.1 no"', '455; message="x"', '535; message="auth"', '500; message="syntax"',
                 '600; message="what"', '099; message="what"', '999;', '354; message="go"', '150; message="x"', '55; x', '5500; x']
 HDR_RE = _re.compile(r'^\s*(\d\d\d)\s*;')
 
